@@ -173,7 +173,7 @@ def stepCase (o : Obs) (a : Acc) (ev : String) : Option Acc :=
   | "d" :: _ => some a
   -- a side effect of a command (harness only): what it changes reaches the model through the inputs every task SAW (INP)
   | "x" :: _ => some a
-  | ["r", _, force, spec] => do
+  | "r" :: _ :: force :: spec :: _ => do   -- a fifth field (`c1`: the process saw one CPU) does not concern the model
     let force := force == "1"
     let a := { a with asked := a.asked || (spec != "-" && !spec.startsWith "E" && !spec.startsWith "F") }
     let inp ← o.inp[a.k]?
